@@ -16,6 +16,8 @@ PLAN = dict(
                 "print trace = bytes the C runtime writes; C01_compile_correct_all_links_partial: EVERY link discharged by a proved stage theorem (no stage hypothesis; "
                 "guards: the boolean guards of the middle theorems, entry_ext / plain_names / plain_types / asm_wf / code_small on the x86-64 side, and heap_fits - the run "
                 "stays inside the 32 MiB heap), all guards executable (C01_compile_correct_checked) and true of five example programs; "
+                "C01_compile_correct_all_links / C01_compile_correct_checked_wf: asm_wf and code_small are no longer hypotheses (proved: Props/C14.v) - replaced by the "
+                "boolean guards labels_guard / imm_guard / size_guard on the linearized program, so no guard looks at the emitted code; true of the five example programs; "
                 "the whole path is exercised natively on every run",
     assumptions=["Sem/FunSem.v is the source semantics the property names (validated against the repository's expected outputs)",
                  "mismatches in programs whose effects are not sequenced (argument evaluation order unspecified by the property) are skipped, not judged",
